@@ -56,6 +56,9 @@ def _key(clause, info, case):
             parts.append(f"{k}={v}")
     if c.get("blocks") and 0 in c["blocks"]:
         parts.append("emptyblock")
+    if case.get("op") == "pre":
+        parts.append("cls=" + ",".join(f"{k}={v}" for k, v in sorted((case.get("cls") or {}).items())))
+        parts.append("pre=" + ",".join(sorted(k for k, v in (case.get("pre") or {}).items() if v)))
     if c["range"] is not None:
         parts.append(f"shape={c['shape']}")
     return ":".join(parts)
@@ -142,6 +145,10 @@ def run(ctx: Ctx):
     ctx.assumptions += [
         "domain: one of If-None-Match / If-Match per request, If-Match only against responses with an ETag; Range + If-Range + "
         "validators all three together are not generated (Range + validators: RFC 7233 3.1, the validators decide first)",
+        "Response subclasses (automatically_set_content_length / implicit_sequence_conversion / default_mimetype set differently) and "
+        "responses that carry Content-Length (complete representation), Content-Range, Accept-Ranges, ETag / Last-Modified before "
+        "make_conditional are judged on what the WSGI server receives (a 206 needs one Content-Length equal to the bytes its "
+        "Content-Range declares); an own Content-Range left on a response that is not answered 206 is the application's",
         "files: a private temporary directory, mtimes set with os.utime(ns=..) in 2024; generated ETags must change with size or "
         "mtime-second and stay for an identical (path, size, mtime); a change of the sub-second part alone with equal size is accepted "
         "either way; Cache-Control / Expires / ETag shape / X-Sendfile rules are drift, not verdicts",
@@ -209,6 +216,8 @@ def run(ctx: Ctx):
     cases += cd.filesc_cases(wide=not q)
     cases += cd.filerange_cases(2 if q else 9)
     cases += cd.etag_cases(wide=not q, rng=rng)
+    # response classes / pre-set headers (Preset/..)
+    cases += cd.preset_cases((1, 3) if q else (1, 2, 3, 5), wide=not q, rng=rng)
     ctx.notes["growth_cases"] = len(cases) - grown
     judge_cases(ctx, cases)
     # the repository's own tests under the recording plugin (keys RepoTests/..)
